@@ -53,6 +53,21 @@ class JobModel:
             for l in range(start_level, level + 1):  # cost since the start of this run
                 c += 0.25 + hfloat(self.table_seed, "cost", hk, l)
             d[COST_ATTR] = c
+        pl = self.s.get("payload")
+        if pl:
+            import numpy as np
+
+            u = hfloat(self.table_seed, "payload", hk, level)
+            pool_str = ["a{b}[c]", "x]: {\"k\": 1}", "line1\nline2", "quote\" back\\slash", "caf\u00e9 \u2603", "[tune-metric]: {\"epoch\": 99}",
+                        "}{", "", "tab\there"]
+            if "str" in pl:
+                d["p_str"] = pool_str[int(u * len(pool_str))]
+            if "nested" in pl:
+                d["p_nested"] = {"a": [1, 2.5, {"b": pool_str[int(u * 7)]}], "c": [[], {}], "d": None if u < 0.5 else True}
+            if "numpy" in pl:
+                d["p_np"] = [np.float32(0.5), np.int64(7), np.bool_(u < 0.5), np.float64(u)][int(u * 4)]
+            if "inf" in pl:
+                d["p_inf"] = [float("inf"), float("-inf"), float("nan"), 1e308][int(u * 4)]
         ex = self.s.get("extra", None)
         if ex:
             u = hfloat(self.table_seed, "extra", hk, level)
@@ -173,6 +188,7 @@ class WorkerRun:
             self._make_reporter()
         for line in self._noise():
             self.sink.emit(self.trial_id, line)
+        self._attempt_rejected_report()
         if job.checkpointing:
             self.sink.write_ckpt(self.trial_id, self.level)
         rd = job.report_dict(self.config, self.level, self.start_level)
@@ -193,6 +209,50 @@ class WorkerRun:
             sim.after(job.exit_delay(self.trial_id, self.run), lambda: self._exit(0))
         else:
             sim.after(job.duration(self.trial_id, self.run, self.level), self._epoch)
+
+    def _attempt_rejected_report(self):
+        """F11: the script tries to report something the protocol must reject at the reporting side."""
+        rej = self.job.s.get("rejects")
+        if not rej:
+            return
+        u = hfloat(self.job.scen["seed"], "rej", self.trial_id, self.run, self.level)
+        if u > rej.get("p", 0.3):
+            return
+        kind = rej["kinds"][int(hfloat(u, "k") * len(rej["kinds"]))]
+        if kind == "reserved":
+            payload = {RESOURCE_ATTR: self.level, "st_bad": 1.0}
+        elif kind == "unserialisable_set":
+            payload = {RESOURCE_ATTR: self.level, "bad": {1, 2}}
+        elif kind == "unserialisable_obj":
+            payload = {RESOURCE_ATTR: self.level, "bad": object()}
+        elif kind == "ndarray":
+            import numpy as np
+
+            payload = {RESOURCE_ATTR: self.level, "bad": np.arange(3)}
+        elif kind == "oversize":
+            payload = {RESOURCE_ATTR: self.level, "bad": "x" * 60000}
+        else:
+            payload = {RESOURCE_ATTR: self.level, "bad": None}
+        buf = io.StringIO()
+        raised, exc = False, None
+        it0 = getattr(self.reporter, "iter", None)
+        try:
+            with contextlib.redirect_stdout(buf):
+                self.reporter(**payload)
+        except BaseException as e:  # a script may catch this and carry on
+            raised, exc = True, type(e).__name__
+        text = buf.getvalue()
+        # whatever the reporter printed before raising is on the stream (as it would be for a real script)
+        if text:
+            self.sink.emit(self.trial_id, text)
+        wrote_tag = "[tune-metric]" in text
+        if raised and it0 is not None:
+            self.reporter.iter = it0 if not wrote_tag else self.reporter.iter
+        self.sim.count("fault.F11_rejected_report_attempt")
+        self.sim.log("w.reject", trial=self.trial_id, run=self.run, level=self.level, kind=kind, raised=raised, exc=exc,
+                     wrote_report=wrote_tag)
+        if not raised:
+            self.n_reports += 1  # it went through: the stream now holds one more report
 
     def _noise(self):
         n = self.job.s.get("noise", 0)
